@@ -5092,8 +5092,13 @@ class DivSimplifyMacro(Macro):
 
         goal = args[0]
         lhs, rhs = goal.args
-        # case 1: t / t <--> 1
-        if lhs.arg1 == lhs.arg and rhs.is_one():
+        # case 1: t / t <--> 1, for a numeral t that is not zero (division is total: 0 / 0 = 0)
+        def nonzero_constant(t):
+            try:
+                return t.is_constant() and real.real_eval(t) != 0
+            except Exception:
+                return False
+        if lhs.arg1 == lhs.arg and nonzero_constant(lhs.arg) and rhs.is_one():
             return Thm(goal)
         # case 2: t / 1 <--> t
         if lhs.arg1 == rhs and lhs.arg.is_one():
